@@ -139,6 +139,24 @@ def run(tier):
     for fl, bn, envx, name in heaps:
         rs = common.run_cases(bn, [c for _, c in short], tag="c12h", env_extra=envx)
         runs += [(seq, cmds, r, name) for (seq, cmds), r in zip(short, rs)]
+    # ... nor on instances that lived and died BEFORE it: predecessors on library and caller buffers with non-default options, small
+    # and large (grown) programs, one or several of them, are created, used and destroyed first
+    big = common.hx("\n".join(["mov rax, 0x1122334455667788"] * 1500))
+    small = common.hx(PROBES)
+    preds = {"pred-int-small": ["new 5 int", "opt 5 all 0", "asm 5 %s" % small, "del 5"],
+             "pred-int-grown": ["new 5 int", "opt 5 all 0", "asm 5 %s" % big, "del 5"],
+             "pred-int-grown-x3": ["new 5 int", "opt 5 all 0", "asm 5 %s" % big, "del 5", "new 6 int", "opt 6 mov 1", "opt 6 sib 0", "asm 6 %s" % big, "new 7 int", "asm 7 %s" % big, "del 7", "del 6"],
+             "pred-ext": ["new 5 ext 65536 H 0xcc", "opt 5 all 0", "opt 5 mov 1", "asm 5 %s" % big, "del 5"],
+             "pred-alive": ["new 5 int", "opt 5 all 0", "asm 5 %s" % big]}
+    for pname, pcmds in sorted(preds.items()):
+        # the instance under test on a library buffer (every second case) or on a caller buffer
+        pc = [pcmds + ([x.replace("ext 256 H 0xcc", "int") if x.startswith("new ") and k % 2 == 0 else x for x in c]) for k, (_, c) in enumerate(short[:40])]
+        rs = common.run_cases(binary, pc, tag="c12p")
+        for (seq, cmds), r in zip(short[:40], rs):
+            if not r["crash"]:
+                r = dict(r, records=r["records"][len(pcmds):])  # the judge reads the records of the instance under test only
+            runs.append((seq, pcmds + cmds, r, pname))
+    v.cov["predecessor_variants"] = sorted(preds)
     v.cov["heap_fill_variants"] = [h[3] for h in heaps]
     v.cov["heap_fill_cases"] = len(short) * len(heaps)
     seen_states = set()
